@@ -40,7 +40,7 @@ theorem patch_length (sc : List Rat → Nat → G → List Nat × G)
 
 /-! ### congruence of one column step -/
 
-theorem foldl_congr_mem {σ ι : Type} (f f' : σ → ι → σ) (l : List ι) (h : ∀ a ∈ l, ∀ s, f s a = f' s a) (s : σ) :
+theorem foldl_congr_mem_round {σ ι : Type} (f f' : σ → ι → σ) (l : List ι) (h : ∀ a ∈ l, ∀ s, f s a = f' s a) (s : σ) :
     l.foldl f s = l.foldl f' s := by
   induction l generalizing s with
   | nil => rfl
@@ -60,7 +60,7 @@ theorem colStep_congr (project : List Attr → Factor Rat)
   by_cases hp : proj.length ≥ 1
   · unfold colStep
     rw [if_pos (by simpa using hp), if_pos (by simpa using hp), hgb, groupbySpec_eq]
-    apply foldl_congr_mem
+    apply foldl_congr_mem_round
     intro ig hig st
     obtain ⟨k, hk, rfl⟩ := List.mem_map.1 hig
     unfold groupStep
